@@ -157,9 +157,9 @@ class WorkerLoop(Case):
     assumptions = ("at least one agent is present in the dicts a sub-environment returns",)
     outside = ("real process scheduling, pickling, shared memory between processes, seeds",)
 
-    def __init__(self, kind, A, T, E=2, index=1, absent=False):
-        self.kind, self.A, self.T, self.E, self.index, self.absent = kind, A, T, E, index, absent
-        self.name = f"worker-{kind}-A{A}-T{T}-env{index}of{E}" + ("-absent" if absent else "")
+    def __init__(self, kind, A, T, E=2, index=1, absent=False, continuous=False):
+        self.kind, self.A, self.T, self.E, self.index, self.absent, self.continuous = kind, A, T, E, index, absent, continuous
+        self.name = f"worker-{kind}-A{A}-T{T}-env{index}of{E}" + ("-absent" if absent else "") + ("-continuous" if continuous else "")
         self.site = "_async_worker/step"
         self.bounds = {"observation_space": kind, "agents": A, "steps": T, "num_envs": E, "env_index": index, "agents_may_leave": absent,
                        "symbolic": "terminated / truncated flags, rewards" + (", presence of each agent in the returned dicts" if absent else "")}
@@ -180,7 +180,10 @@ class WorkerLoop(Case):
             d["__resets__"] = env.resets
             return d
 
-        acts = [[t + 1 + k for k in range(self.A)] for t in range(self.T)]
+        if self.continuous:
+            acts = [[np.array([[0.5 * t + k, -1.0 * k]], dtype=np.float32) for k in range(self.A)] for t in range(self.T)]     # (1, 2) rows as sliced from a batch
+        else:
+            acts = [[t + 1 + k for k in range(self.A)] for t in range(self.T)]
         pipe = ScriptPipe([("reset", {"seed": None, "options": None})] + [("step", a) for a in acts] + [("close", None)], snapshot)
         errors = ListQueue()
         _async_worker(self.index, lambda: env, pipe, ScriptPipe([], snapshot), shm, errors, agents)
@@ -207,7 +210,7 @@ class WorkerLoop(Case):
                           site="_async_worker/reset-condition"))
             for k, a in enumerate(agents):
                 here = present[a]
-                res.append(Ob(f"step{t}/{a}/env-got-its-own-action", bool(np.asarray(env.actions[t][a]).item() == acts[t][k])))
+                res.append(Ob(f"step{t}/{a}/env-got-its-own-action", bool(np.array_equal(np.asarray(env.actions[t][a]).reshape(-1), np.asarray(acts[t][k]).reshape(-1)))))
                 if here:
                     res.append(Ob(f"step{t}/{a}/reward-termination-truncation-are-env-i's-own",
                                   conj(a in rew and eq(rew[a], env.flags[t][a][2]), a in term and eq(term[a], env.flags[t][a][0]), a in trunc and eq(trunc[a], env.flags[t][a][1])),
@@ -323,7 +326,7 @@ class AutoResetWrapper(Case):
 
 def cases(tier):
     cs = [WorkerLoop("vector", 2, 2), WorkerLoop("image", 2, 1, E=3, index=2), WorkerLoop("dict", 2, 1), WorkerLoop("tuple", 1, 2, index=0),
-          WorkerLoop("vector", 2, 1, absent=True),
+          WorkerLoop("vector", 2, 1, absent=True), WorkerLoop("vector", 2, 1, continuous=True),
           ParentStep(2, 2), ParentStep(3, 2, copy=False), ParentStep(1, 3),
           AutoResetWrapper(1), AutoResetWrapper(2)]
     if tier == "thorough":
